@@ -882,13 +882,10 @@ example : spec .pipeline [⟨.fresh, none, false, none, false, false, false⟩] 
 /-! ### tie: pinned source facts -/
 
 set_option maxRecDepth 8000 in
-/-- the three loop conditions, what surrounds them, and the deadlines the model's reading of
-    the code depends on -/
+/-- what surrounds the three loop conditions (the conditions themselves: tie by translation) -/
 theorem pins :
-    -- loop conditions and counters
-    Facts.c14_pipeCond = "!newConn && retry < 5 && !ctxIsDone(ctx)" ∧ Facts.c14_pipeLimit = Kind.pipeline.lim ∧
-    Facts.c14_reuseCond = "!isNewConn && retry <= 5 && !ctxIsDone(ctx)" ∧ Facts.c14_reuseLimit + 1 = Kind.reuse.lim ∧
-    Facts.c14_quicCond = "!newConn && retry < 5 && !ctxIsDone(ctx)" ∧ Facts.c14_quicLimit = Kind.quic.lim ∧
+    -- loop counters (the loop conditions and their bounds are tied by translation: Lemmas/TranslatedC14.lean,
+    -- `pipelineLoop_translated`, `reuseLoop_translated`, `quicLoop_translated`, `dohLoop_translated`)
     Facts.c14_pipeRetryInit = "retry := 0" ∧ Facts.c14_reuseRetryInit = "retry := 0" ∧ Facts.c14_quicRetryInit = "retry := 0" ∧
     Facts.c14_pipeRetryIncs = 1 ∧ Facts.c14_reuseRetryIncs = 1 ∧ Facts.c14_quicRetryIncs = 1 ∧
     Facts.c14_pipeContinues = 1 ∧ Facts.c14_reuseContinues = 1 ∧ Facts.c14_quicContinues = 1 ∧
@@ -898,7 +895,6 @@ theorem pins :
     Facts.c14_pipeExchange = "resp, err := conn.exchange(ctx, m)" ∧ Facts.c14_pipeRelease = "t.releaseConn(conn)" ∧
     Facts.c14_pipeErrReturns = 2 ∧ Facts.c14_pipeOkReturn = "return resp, nil" ∧
     -- reuse loop body
-    Facts.c14_reusePoolCond = "retry <= 5" ∧ Facts.c14_reusePoolLimit = Kind.reuse.poolLim ∧
     Facts.c14_reuseConnDecl = "var c *reusableConn" ∧
     Facts.c14_reuseGetIdle = "c, err = t.getIdleConn()" ∧ Facts.c14_reuseGetIdleCalls = 1 ∧
     Facts.c14_reuseDialCalls = 1 ∧ Facts.c14_reuseNilCond = "c == nil" ∧
